@@ -24,5 +24,7 @@ let () = Reg.register "c05.opt" (fun inp out ->
     let m = Optimize.optimize t terms rules dr in
     let o = get_disp_enc out in
     let ok = if dr then OptimizeSpec.check_enc_dr t o terms else OptimizeSpec.check_enc t o terms in
-    (put_disp_enc m, if ok then "ok" else if dr then "bad:compressed-tables-change-an-action-(defaultReduce)" else "bad:compressed-tables-decode-differently")
+    (* the precondition of the once-and-for-all theorems (Props/C05.v: C05_optimize_passes_validator and ..._default_reduce *)
+    let wf = OptimizeWf.wf_enc t terms rules in
+    (put_disp_enc m, if not wf then "bad:tables-of-lalr.Compile-are-not-well-formed-(wf_enc)" else if ok then "ok" else if dr then "bad:compressed-tables-change-an-action-(defaultReduce)" else "bad:compressed-tables-decode-differently")
   | _ -> failwith "c05.opt")
